@@ -19,7 +19,8 @@ THEOREMS = ["C13_quiescent_after_stop", "C13_stopping_inert", "C13_stop_never_fa
             "C13_shutdown_commits_step", "C13_fuel_monotone", "C13_fuel_monotone_nested", "C13_stop_fuel_enough",
             "C13_stop_step_fuel_enough", "C13_stopping_fuel_enough", "C13_commit_side_fuel_enough", "C13_message_loop_fuel_enough",
             "C13_step_fuel_enough", "C13_fuel_enough", "C13_reachable_invariant_all", "C13_every_stop_quiescent_all",
-            "C13_shutdown_commits_all", "C13_not_started_idle_all"]
+            "C13_shutdown_commits_all", "C13_not_started_idle_all", "C13_not_started_commit_idle",
+            "C13_not_started_commit_idle_step", "C13_not_started_commit_idle_nested", "C13_not_started_commit_idle_all"]
 
 
 def idle(ob):
@@ -591,11 +592,11 @@ def run(ck):
         "(C13_reachable_invariant, C13_every_stop_quiescent [application stop() events], C13_shutdown_commits, C13_not_started_idle) carry the "
         "hypothesis all_fuel_ok, which C13_fuel_enough discharges for every configuration the constructor accepts (auto_commit_every_n >= 0): "
         "the _all forms (Props/C13all.v) state them as exists fuel0, forall fuel >= fuel0",
-        "Props/C13all.v (4 of the 31 theorems: C13_reachable_invariant_all, C13_every_stop_quiescent_all, C13_shutdown_commits_all, "
-        "C13_not_started_idle_all - one-line corollaries of C13_fuel_enough and the theorem of the same name without _all, both in Props/C13.v) "
-        "is re-checked by ck.props only on the thorough tier; on the quick tier it is built by make and its 4 obligations are NOT re-checked",
+        "Props/C13all.v (5 of the 35 theorems: C13_reachable_invariant_all, C13_every_stop_quiescent_all, C13_shutdown_commits_all, "
+        "C13_not_started_idle_all, C13_not_started_commit_idle_all - one-line corollaries of C13_fuel_enough and the theorem of the same name without _all, both in Props/C13.v) "
+        "is re-checked by ck.props only on the thorough tier; on the quick tier it is built by make and its 5 obligations are NOT re-checked",
         "NOT proved: that every reachable state has consistent shutdown bookkeeping (invs item 5, evaluated model-side on every case; "
-        "C13_stop_clears_shutdown_partial assumes it); commit-side quiescence for the rest of the event after a stop() made inside the processor; "
+        "C13_stop_clears_shutdown_partial assumes it); "
         "a processor / auto-commit failure reaching the start Deferred is held by trace equality only",
         "the harness gives the model fuel 60 + #events + 2 x #messages (consumer_lib.fuel_for), not the proved bound BE; a case needing more would "
         "surface as a trace difference (the implementation never emits the out-of-fuel marker)",
